@@ -8,7 +8,9 @@ CONSTANTS
   Record = TRUE
   Starts = {0, 400, 1000, 2600}
   CtxChoices = {0, 700, 1500, 3100, 8000, 20000, 70000, 300000}
+  HCs = {"nil", "plain", "follow", "limit", "jar", "timeout", "uselast", "refuse"}
   Rich = FALSE
+  WireRich = FALSE
   Sim = TRUE
 INIT MCInit
 NEXT SimNext
